@@ -93,6 +93,13 @@ def cases(M):
     register_eigh(H, lam, Q)
     soft = np.array([SE(x.e / sp.tanh(x.e * c.e)) for x in lam], dtype=object)
     out.append(("SoftAbs distinct eigenvalues", M.SoftAbsRegularizedPositiveDefiniteMatrix(H, c), Q @ np.diag(soft) @ Q.T, H, {"symmetric": True}))
+    # a spectrum symmetric about zero (Hessians of bilinear terms, [[0, B], [B^T, 0]]): the UNREGULARISED eigenvalues w and -w are distinct although their
+    # softabs values coincide (softabs is even): the divided difference between them is 0, not softabs'(w)
+    lam_pm = np.array([lam[0], -1 * lam[0]], dtype=object)
+    Hpm = Q @ np.diag(lam_pm) @ Q.T
+    register_eigh(Hpm, lam_pm, Q)
+    soft_pm = np.array([SE(x.e / sp.tanh(x.e * c.e)) for x in lam_pm], dtype=object)
+    out.append(("SoftAbs eigenvalues w and -w", M.SoftAbsRegularizedPositiveDefiniteMatrix(Hpm, c), Q @ np.diag(soft_pm) @ Q.T, Hpm, {"symmetric": True}))
     F = mat("f", 2, 1)
     for sign in (1, -1):
         out.append((f"PositiveDefiniteLowRankUpdate sign={sign}", M.PositiveDefiniteLowRankUpdateMatrix(M.DenseRectangularMatrix(F), M.PositiveDiagonalMatrix(dp), sign=sign),
